@@ -38,7 +38,7 @@ var (
 
 	mu        sync.Mutex
 	d1Failing = map[string]bool{} // fn|component|family|siteClass — single-header failures (explain d=2 failures)
-	origFail  = map[string]bool{} // fn|component|fixture — failures of an unchanged block (explain every variant of it)
+	origFail  = map[string]bool{} // fn|component|fixture|tx — failures on an unchanged block (explain the same failure in its variants)
 	counters  = map[string]int64{}
 	pending   = map[string]*pendingViolation{} // smallest failing variant per (extractor, component, family, class); emitted at the end
 )
@@ -90,6 +90,7 @@ type mismatch struct {
 	comp string // component kind
 	what string
 	feat string // for failures of an unchanged block: the structural feature of the component's container ("" = none)
+	tx   int    // transaction index (-1 = block level)
 }
 
 // rep is a reported range in int form.
@@ -103,8 +104,9 @@ func shift(r Rng, d int) Rng { return Rng{r.S + d, r.E + d} }
 // the number of ranges compared, and observation counters.
 func compare(block []byte, lay *Layout, off *common.BlockTransactionOffsets) (mm []mismatch, ranges int, obs map[string]int) {
 	obs = map[string]int{}
+	curTx := -1
 	add := func(comp, format string, a ...any) {
-		mm = append(mm, mismatch{comp: comp, what: fmt.Sprintf(format, a...)})
+		mm = append(mm, mismatch{comp: comp, what: fmt.Sprintf(format, a...), tx: curTx})
 	}
 	oob := func(r Rng) string {
 		if r.S < 0 || r.E > len(block) || r.S > r.E {
@@ -126,6 +128,7 @@ func compare(block []byte, lay *Layout, off *common.BlockTransactionOffsets) (mm
 	}
 	for i := 0; i < nRep && i < nExp; i++ {
 		rep, exp := off.Transactions[i], lay.Txs[i]
+		curTx = i
 		// body
 		ranges++
 		body := rr(rep.Body)
@@ -422,11 +425,21 @@ func handle(v *Variant) {
 		}
 		seen := map[string]bool{}
 		for _, m := range mm {
-			if seen[m.comp] {
-				continue
+			bad = true
+			inst := fmt.Sprintf("%s|%s|%s|tx%d", e.name, m.comp, v.Fx.Name, m.tx)
+			mu.Lock()
+			if len(v.Sites) == 0 {
+				origFail[inst] = true
+			}
+			asOrig := len(v.Sites) > 0 && origFail[inst]
+			if asOrig {
+				counters["variant_failures_explained_by_the_failing_original"]++
+			}
+			mu.Unlock()
+			if asOrig || seen[m.comp] {
+				continue // this transaction's component already fails on the unchanged block / one report per component kind
 			}
 			seen[m.comp] = true
-			bad = true
 			report(e.name, m.comp, v, m.what, m.feat, map[string]any{"mismatches": len(mm)})
 		}
 	}
@@ -465,15 +478,6 @@ func report(fn, comp string, v *Variant, what, feat string, extra map[string]any
 	k := fn + "|" + comp + "|" + fam + "|" + class
 	cand := &pendingViolation{fn: fn, comp: comp, v: v, what: what, extra: extra, n: 1, class: class}
 	mu.Lock()
-	if len(v.Sites) == 0 {
-		origFail[fn+"|"+comp+"|"+v.Fx.Name] = true
-	}
-	if len(v.Sites) > 0 && origFail[fn+"|"+comp+"|"+v.Fx.Name] {
-		// the unchanged block already fails for this component: nothing new is learnt
-		counters["variant_failures_explained_by_the_failing_original"]++
-		mu.Unlock()
-		return
-	}
 	if len(v.Sites) == 1 {
 		d1Failing[k] = true
 	}
@@ -535,7 +539,12 @@ func resolvePending(all bool) {
 
 func main() {
 	c = vlib.New("C07", "exploration")
-	if g := os.Getenv("VERIF_GOGC"); g != "" { n, _ := strconv.Atoi(g); debug.SetGCPercent(n) } else { debug.SetGCPercent(200) }
+	if g := os.Getenv("VERIF_GOGC"); g != "" {
+		n, _ := strconv.Atoi(g)
+		debug.SetGCPercent(n)
+	} else {
+		debug.SetGCPercent(200)
+	}
 	if pf := os.Getenv("VERIF_PPROF"); pf != "" {
 		f, _ := os.Create(pf)
 		pprof.StartCPUProfile(f)
@@ -578,6 +587,9 @@ func main() {
 		c.Note(fmt.Sprintf("only %d fixtures could be read from the repository", len(plans)))
 	}
 	deadline := c.Deadline(45*time.Second, 8*time.Minute)
+	if d, err := time.ParseDuration(os.Getenv("VERIF_DEADLINE")); err == nil && d > 0 { // debugging aid (overloaded machine)
+		deadline = time.Now().Add(d)
+	}
 	d2mode := 1
 	if c.Thorough() {
 		d2mode = 2
@@ -628,6 +640,13 @@ func replay(fixtures []space.Fixture) {
 			if h, _ := hex.DecodeString(r.Hex); !bytes.Equal(h, b) {
 				fmt.Println("note: rebuilt variant differs from the recorded bytes (fixture changed?)")
 			}
+		}
+		if len(r.Sites) > 0 {
+			// the unchanged artefact first: its failures are not attributed to the variant
+			handle(&Variant{Fx: &fixtures[i], Bytes: fixtures[i].Cbor})
+			mu.Lock()
+			pending = map[string]*pendingViolation{}
+			mu.Unlock()
 		}
 		v := &Variant{Fx: &fixtures[i], Sites: r.Sites, Bytes: b}
 		fmt.Printf("replaying %s of %s (%d bytes)\n", v.Desc(), v.Fx.Name, len(b))
